@@ -88,3 +88,36 @@ def unit_init_mix(twin=False):
     r.assumptions += ["m and m1 are distinct allocations (two PHRQ_malloc calls)", "equal exchange between neighbours (m[i] == m1[i-1]) is the user's cell geometry (the code warns)",
                       "nmix > 1.5*maxmix is read from the explicit-scheme statement; the implicit scheme and mcd_substeps are not pinned", "doubles as reals"]
     return r
+
+
+def unit_transport_defaults(twin=False):
+    """read_transport: when a per-cell property (length, dispersivity, ...) is not given, the announced default is given to EVERY cell
+    of the column (1 .. max_cells), so that a column announced as uniform is uniform (mixing factors of neighbours then agree)."""
+    import re
+    RT = "src/phreeqcpp/readtr.cpp"
+    q = "Phreeqc::read_transport"
+    fn = A.find_function(RT, q)
+    r = U.new_unit("C11.read_transport.defaults_cover_every_cell", RT, q, fn, kind="structural")
+    n = 0
+    for x in A.walk(fn):
+        if x.get("kind") != "IfStmt":
+            continue
+        m = re.match(r"^count_(\w+)==0$", text_of(RT, x["inner"][0]))
+        if not m:
+            continue
+        for lp in A.walk(x["inner"][1]):
+            if lp.get("kind") != "ForStmt":
+                continue
+            body = text_of(RT, lp["inner"][-1])
+            mm = re.match(r"^\{?cell_data\[i\]\.(\w+)=([\d\.]+);?\}?$", body)
+            if not mm:
+                continue
+            n += 1
+            init, cond = text_of(RT, lp["inner"][0]), text_of(RT, lp["inner"][2])
+            ok = init.rstrip(";") == "i=1" and cond in ("i<=max_cells", "i<=all_cells")
+            if twin and n == 1:
+                ok = False
+            r.add("default_%s=%s.assigned_to_cells_1..max" % (mm.group(1), mm.group(2)), DISCHARGED if ok else FAILED, "syntactic", 0, "for (%s %s; ...)" % (init, cond))
+    r.add("reach.default_loops", DISCHARGED if n >= 2 else UNDECIDED, "syntactic", 0, "%d" % n, kind="vacuity")
+    r.assumptions += ["text anchors on the default-filling loops of read_transport"]
+    return r
